@@ -102,20 +102,13 @@ def graphs(tier):
     return out
 
 
-def header_of(nodes):
+TRAILER = ["struct Nz { int unrelated; };", "int Nz_fn(struct Nz *z);", "extern int Nz_var;", "struct Nb0 { int trap; };", "typedef int Na1;", "enum { UNNAMED_A, UNNAMED_B };"]
+
+
+def pieces(nodes):
+    """(forward declarations, nodes in definition order): forward declarations let any order work; a node that is needed
+    complete (by value, array, typedef target, parameter type, variable type, or because it is an enum / typedef) comes first."""
     kinds = {n.name: n.kind for n in nodes}
-    decls = []
-    # forward declarations so that any order works; definitions tail-first
-    for n in nodes:
-        if n.kind in ("struct", "union"):
-            decls.append(f"{n.kind} {n.name};")
-    for n in reversed(nodes):
-        if n.kind in TYPE_KINDS and n.kind != "typedef":
-            decls.append(n.source(kinds))
-    for n in reversed(nodes):
-        if n.kind == "typedef":
-            decls.append(n.source(kinds))
-    # structs that hold a typedef by value need the typedef first: re-emit order typedef-dependent structs last
     ordered = []
     emitted = set()
 
@@ -129,11 +122,14 @@ def header_of(nodes):
         ordered.append(n)
     for n in nodes:
         emit(n)
-    decls = [f"{n.kind} {n.name};" for n in nodes if n.kind in ("struct", "union")]
-    decls += [n.source(kinds) for n in ordered]
+    fwd = [f"{n.kind} {n.name};" for n in nodes if n.kind in ("struct", "union")]
+    return fwd, ordered, kinds
+
+
+def header_of(nodes):
+    fwd, ordered, kinds = pieces(nodes)
     # unrelated declarations and the proper-prefix trap
-    decls += ["struct Nz { int unrelated; };", "int Nz_fn(struct Nz *z);", "extern int Nz_var;", "struct Nb0 { int trap; };", "typedef int Na1;", "enum { UNNAMED_A, UNNAMED_B };"]
-    return "\n".join(decls) + "\n"
+    return "\n".join(fwd + [n.source(kinds) for n in ordered] + TRAILER) + "\n"
 
 
 def closure(nodes, roots, blocked=()):
@@ -290,6 +286,13 @@ def run(ck, only=None):
         special_cases(ck)
     if not only or only.get("part") == "anon":
         anon_cases(ck, only)
+    if not only or only.get("part") == "files":
+        fgs = graphs(ck.tier)
+        if ck.tier == "quick":
+            fgs = [g for k, g in enumerate(fgs) if (k + ck.seed) % 6 == 0 or not g[0].startswith("chain")]
+        if only:
+            fgs = [g for g in fgs if g[0] == only.get("graph")]
+        file_cases(ck, fgs, only)
     ck.sample({"graph": gs[0][0] if gs else None, "header": header_of(gs[0][1]) if gs else None})
     ck.extra["graphs"] = len(gs)
     ck.extra["allowlist_runs"] = len(meta)
@@ -382,6 +385,67 @@ def special_cases(ck):
         extra = sorted(mustnot & names)
         if missing or extra:
             ck.violation(f"special flags={fl}", {"part": "special", "why": f"missing {missing}; wrongly emitted {extra}; emitted {sorted(names)[:14]}"})
+
+
+def file_cases(ck, gs, only=None):
+    """--allowlist-file: the declarations of each graph are split over two included files at every position of the definition
+    order; allowlisting one file must emit exactly the closure of the nodes defined in it (the rest of the oracle as above)."""
+    wd = os.path.join(ck.wd, "files")
+    os.makedirs(wd, exist_ok=True)
+    jobs, meta = [], {}
+    for gi, (gid, nodes) in enumerate(gs):
+        fwd, ordered, kinds = pieces(nodes)
+        for k in range(1, len(ordered)):
+            d = os.path.join(wd, f"g{gi}_{k}")
+            os.makedirs(d, exist_ok=True)
+            parts = {"part_a.h": ordered[:k], "part_b.h": ordered[k:]}
+            for fn, ns in parts.items():
+                open(os.path.join(d, fn), "w").write("\n".join(n.source(kinds) for n in ns) + "\n")
+            hp = os.path.join(d, "main.h")
+            open(hp, "w").write("\n".join(fwd + ['#include "part_a.h"', '#include "part_b.h"'] + TRAILER) + "\n")
+            base = [hp, "--formatter", "none", "--no-layout-tests"]
+            jobs.append({"id": f"{gi}|{k}|full", "args": base, "inventory": True})
+            for fn, ns in parts.items():
+                for vname, extra in (("file", []), ("file+ignore-functions", ["--ignore-functions"])):
+                    if extra and not all(n.kind in TYPE_KINDS for n in ns):
+                        continue
+                    jid = f"{gi}|{k}|{fn}|{vname}"
+                    jobs.append({"id": jid, "args": base + ["--allowlist-file", ".*/" + fn.replace(".", "\\.")] + extra, "inventory": True})
+                    meta[jid] = (gid, nodes, tuple(n.name for n in ns), vname, f"{gi}|{k}|full")
+    res = common.run_jobs(jobs, wd, timeout=60)
+    comp = []
+    for jid, (gid, nodes, roots, vname, fullid) in meta.items():
+        ck.count()
+        ck.nontriv(("file", jid))
+        r, full = res[jid], res[fullid]
+        case = f"graph=[{gid}] allowlist-file split={jid.split('|')[1]} file={jid.split('|')[2]} variant={vname}"
+        det = {"part": "files", "graph": gid, "job": jid}
+        if r["status"] != "ok" or full["status"] != "ok":
+            ck.violation(case + " generation-failed", dict(det, why=f"{r['status']} {r.get('err') or r.get('panic')}"[:300]))
+            continue
+        got, fullnames = emitted_names(r["inventory"]), emitted_names(full["inventory"])
+        expect = closure(nodes, roots)
+        got_nodes = {owner(n, nodes) for n in got} - {None}
+        stray = sorted(n for n in got if owner(n, nodes) is None and not n.startswith("__Bindgen"))
+        probs = []
+        if got_nodes != expect:
+            missing, extra = sorted(expect - got_nodes), sorted(got_nodes - expect)
+            if missing:
+                probs.append(f"needed but not emitted: {missing}")
+            if extra:
+                probs.append(f"emitted although not in the file and not needed by it: {extra}")
+        if stray:
+            probs.append(f"unrelated items emitted: {stray}")
+        for n, tok in got.items():
+            if n in fullnames and fullnames[n] != tok:
+                probs.append(f"item {n} differs from the un-allowlisted bindings")
+        if probs:
+            ck.violation(case, dict(det, why="; ".join(probs)[:600]))
+        else:
+            comp.append((jid, r["text"]))
+    cmeta = {jid: (meta[jid][0] + " allowlist-file", [], [jid.split("|")[2]], meta[jid][3], set()) for jid, _ in comp}
+    compile_groups(ck, comp, cmeta, wd)
+    ck.extra["allowlist_file_runs"] = len(meta)
 
 
 ANON_H = r'''
